@@ -4,7 +4,7 @@
 From Coq Require Import List NArith ZArith Bool.
 Import ListNotations.
 From NV Require Import Codec.Escape Codec.EscapeProofs Codec.Ident Codec.IdentProofs Codec.Num
-  Codec.NumProofs Codec.YamlScalar Codec.YamlScalarProofs Codec.SourcePins.
+  Codec.NumProofs Codec.YamlScalar Codec.YamlScalarProofs Codec.SourcePins Codec.Loaders Codec.LoadersProofs.
 From NV Require Import Gen.Keywords.
 
 (* --- strings: printer escaping vs. lexer, for every string *)
@@ -78,3 +78,8 @@ Proof. exact yaml_string_survives_under_contract. Qed.
 Theorem C13_yaml_contract_necessary :
   forall s, nonstring_spelling s = true -> resolve Plain None s <> RStr s.
 Proof. exact yaml_contract_necessary. Qed.
+
+(* --- T1: the JSON event loader (yaml.rs) and the serde path agree on every in-scope document *)
+Theorem C13_loaders_agree : forall t : jtree, in_scope t = true ->
+  loader_run (events t) = Some (denote t) /\ serde_run (events t) = Some (denote t).
+Proof. exact loaders_agree. Qed.
